@@ -81,8 +81,28 @@ def _p(x):
     return {'k': 'elem', 'v': P.enc(x)}
 
 
+def _bloc_mask(f):
+    m = np.zeros(f.shape, dtype=bool)
+    m[0, :] = True
+    m[-1, ::2] = True
+    return m
+
+
+def _bloc_series(f, as_hierarchy):
+    '''one distinct value per selected (row label, column label) coordinate'''
+    m = _bloc_mask(f)
+    coords = [(f.index[i], f.columns[j]) for i, j in zip(*np.nonzero(m))]
+    vals = np.arange(100, 100 + len(coords))
+    return sf.Series(vals, index=sf.IndexHierarchy.from_labels(coords) if as_hierarchy else sf.Index(coords))
+
+
 SWEEP = {
     'values': lambda f: f.values,
+    'assign_bloc_series': lambda f: f.assign.bloc[_bloc_mask(f)](_bloc_series(f, True)),
+    'assign_bloc_series_flat': lambda f: f.assign.bloc[_bloc_mask(f)](_bloc_series(f, False)),
+    # (the function is given the selected cells in an order that follows the layout - known finding C03-bloc-order-follows-layout - so the value it returns for a cell depends on the cell's labels only)
+    'assign_bloc_apply': lambda f: f.assign.bloc[_bloc_mask(f)].apply(lambda s: sf.Series([list(f.columns).index(c) * 7 + list(f.index).index(r) for r, c in s.index], index=s.index)),
+    'assign_bloc_frame_mask_series': lambda f: f.assign.bloc[sf.Frame(_bloc_mask(f), index=f.index, columns=f.columns)](_bloc_series(f, True)),
     'shape': lambda f: f.shape,
     'dtypes': lambda f: f.dtypes,
     'transpose': lambda f: f.transpose(),
